@@ -562,9 +562,19 @@ type Env func(atom string) (val bool, ok bool)
 // Eval finds the rows whose condition holds under env. unknown lists atoms env could not decide
 // that mattered (appeared in a term not already falsified).
 func (t *Table) Eval(env Env) (rows []Row, unknown []string) {
+	rows, _, unknown = t.Eval3(env)
+	return
+}
+
+// Eval3 is Eval that also lists the rows that may apply: rows none of whose terms is
+// established but one of whose terms has every known literal satisfied (and some unknown atom).
+// Rows are the paths of a function, so they are mutually exclusive: when some row is
+// established, it is the one taken and the may-rows are infeasible under that assignment.
+func (t *Table) Eval3(env Env) (rows, maybe []Row, unknown []string) {
 	unk := map[string]bool{}
 	for _, r := range t.Rows {
 		sat := false
+		may := false
 		for _, term := range r.Cond {
 			ok := true
 			undecided := false
@@ -580,6 +590,7 @@ func (t *Table) Eval(env Env) (rows []Row, unknown []string) {
 				}
 			}
 			if ok && undecided {
+				may = true
 				for _, l := range term {
 					if _, known := env(l.Atom); !known {
 						unk[l.Atom] = true
@@ -594,6 +605,8 @@ func (t *Table) Eval(env Env) (rows []Row, unknown []string) {
 		}
 		if sat {
 			rows = append(rows, r)
+		} else if may {
+			maybe = append(maybe, r)
 		}
 	}
 	for a := range unk {
